@@ -207,15 +207,20 @@ KANI_UNITS["C43"] = dict(
              ("crates/varpulis-lsp/src/navigation.rs", "__vpv_c43b", "contracts/kani/c43_nav.rs"),
              ("crates/varpulis-lsp/src/hover.rs", "__vpv_c43c", "contracts/kani/c43_hover.rs"),
              ("crates/varpulis-lsp/src/completion.rs", "__vpv_c43d", "contracts/kani/c43_completion.rs")],
-    grade="K-bounded(exhaustive: the 43 documents of <= 2 characters over {a _ space newline é 1}, every position / line / column in and just past them)", level="other", timeout=3600, harness_timeout=1500, jobs=8,
-    functions=["varpulis-lsp/src/diagnostics.rs: position_to_line_col, get_error_end_column", "varpulis-lsp/src/navigation.rs: byte_offset_to_position, word_at_position",
-               "varpulis-lsp/src/hover.rs: get_word_at_position", "varpulis-lsp/src/completion.rs: get_completion_context"],
-    explanation=("PARTIAL, BOUNDED (position helpers only). Exhaustively for the 43 documents of at most two characters over an alphabet with a newline and a 2-byte character, and every "
-                 "position from 0 to just past the end: the helpers return without panicking; line <= number of newlines; column <= number of characters; a returned word is "
-                 "non-empty and not longer than the document; an error range's end is after its start. NOT covered: the request handlers themselves (tower-lsp, parser), "
-                 "completion and semantic tokens."),
-    assumptions=["43 concrete documents (bounded exhaustive enumeration executed by CBMC) — a stand-in for 'all documents'"],
+    grade="K-bounded(ALL valid UTF-8 documents of <= 3 bytes; every usize offset)", level="other", timeout=3600, harness_timeout=1200, jobs=4,
+    native_grade="bounded(native exhaustive enumeration: 7382 documents of <= 4 characters over {a _ space newline é 1 . ( 世} x lines 0..=5 x character columns 0..=6)",
+    functions=["varpulis-lsp/src/diagnostics.rs: position_to_line_col (Kani), get_error_end_column (native enumeration)",
+               "varpulis-lsp/src/navigation.rs: byte_offset_to_position (Kani), word_at_position (native enumeration)",
+               "varpulis-lsp/src/hover.rs: get_word_at_position (native enumeration)", "varpulis-lsp/src/completion.rs: get_completion_context (native enumeration)"],
+    explanation=("PARTIAL, BOUNDED (position helpers only). (1) Kani, 2 cells: for every valid UTF-8 document of at most 3 bytes and every usize offset, position_to_line_col and "
+                 "byte_offset_to_position return without panicking with line <= number of newlines and column <= document length. (2) The four helpers that go through "
+                 "str::lines / char::is_alphanumeric (unicode tables: out of CBMC's reach, measured 670 s / 9.8 GB then failure for ONE of them on 3 ASCII bytes) are covered by a "
+                 "BOUNDED STAND-IN: native exhaustive enumeration of 7382 documents (<= 4 characters, with 1-, 2- and 3-byte characters, LF and CR) x 6 lines x 7 columns against "
+                 "the real functions: no panic; returned words are non-empty identifier text of the document; an error range ends after its start. NOT covered: the request "
+                 "handlers themselves (tower-lsp, parser), semantic tokens, documents beyond the bound."),
+    assumptions=["documents of <= 3 bytes (Kani) / <= 4 characters over a 9-character alphabet (native enumeration) — bounded stand-ins for 'all documents'; nothing is proved for longer documents"],
 )
+
 
 KANI_UNITS["C05"] = dict(
     prop="C05", crate="varpulis-runtime",
